@@ -562,6 +562,10 @@ impl Coll for Imports {
             ("mod".into(), "a".into(), ItemKey::F(0)),
             // a function import sharing (module, field) with the global import
             ("env".into(), "b".into(), ItemKey::F(1)),
+            // added through Module::add_import_table / add_import_memory,
+            // which create the entity and return the import's id
+            ("env".into(), "t".into(), ItemKey::T),
+            ("env".into(), "m".into(), ItemKey::M),
         ]
     }
     fn add(&mut self, v: &Self::Val) -> Result<ImportId, ()> {
@@ -570,6 +574,8 @@ impl Coll for Imports {
                 let f = self.f[i];
                 quiet(|| self.m.imports.add(&v.0, &v.1, f)).ok_or(())
             }
+            ItemKey::T => quiet(|| self.m.add_import_table(&v.0, &v.1, false, 1, None, RefType::Funcref).1).ok_or(()),
+            ItemKey::M => quiet(|| self.m.add_import_memory(&v.0, &v.1, false, false, 1, None, None).1).ok_or(()),
             _ => {
                 let g = self.g;
                 quiet(|| self.m.imports.add(&v.0, &v.1, g)).ok_or(())
@@ -1359,6 +1365,7 @@ fn run(ctx: &Ctx) {
             }
             "imports" => {
                 alphabet.push(Op::Add(4));
+                alphabet.push(Op::Add(5));
                 alphabet.push(Op::Remove(0));
                 alphabet.push(Op::Remove(1));
                 len -= 1;
